@@ -20,6 +20,7 @@ import (
 	"verifh/drv"
 	"verifh/fakeredis"
 	"verifh/mon"
+	"verifh/resp"
 )
 
 const (
@@ -189,7 +190,8 @@ func (d *driver) runConfig(c cfg, nops int) string {
 	var hist []opRec
 	k := ""
 	maxItems := 12
-	key := func() string { return fmt.Sprintf("%s hashes=%s", base, k) }
+	shape := ""
+	key := func() string { return fmt.Sprintf("%s hashes=%s%s", base, k, shape) }
 	note := func(op string, keys []string, res string) {
 		hist = append(hist, opRec{Op: op, Keys: short(keys), Res: res})
 		if len(hist) > 14 {
@@ -220,11 +222,24 @@ func (d *driver) runConfig(c cfg, nops int) string {
 		}
 		return l
 	}
+	var exists func(keys []string, multi bool) bool
+	refuse := "" // when set, the server answers the next add script with this error reply instead of running it
 	add := func(keys []string, multi bool) bool {
 		var err error
 		op := "Add"
 		if multi {
 			op = "AddMulti"
+		}
+		var rule *fakeredis.Rule
+		refused := refuse
+		refuse = ""
+		if refused != "" {
+			v := resp.Err(refused)
+			rule = srv.Plan(&fakeredis.Rule{Name: "refuse-add", Times: 1, Action: fakeredis.Action{Reply: &v},
+				Match: func(_ *fakeredis.Conn, a []string) bool {
+					return len(a) > 5 && strings.HasPrefix(strings.ToUpper(a[0]), "EVAL") && a[2] == "2"
+				}})
+			defer srv.ClearPlan()
 		}
 		if d.guard(key(), op, func() {
 			if multi {
@@ -235,8 +250,18 @@ func (d *driver) runConfig(c cfg, nops int) string {
 		}) {
 			return false
 		}
+		fired := rule != nil && srv.RuleFired(rule) > 0
 		if err != nil {
+			if fired { // the server refused the add and the caller was told: nothing was added
+				note(op, keys, "refused: "+err.Error())
+				run.Observe("adds_refused_by_server_and_reported", 1)
+				return true
+			}
 			fail(op, err)
+			return false
+		}
+		if rule != nil && !fired {
+			run.Inconclusive("the fault rule for the add script did not fire")
 			return false
 		}
 		note(op, keys, "ok")
@@ -245,6 +270,15 @@ func (d *driver) runConfig(c cfg, nops int) string {
 				known = append(known, x)
 			}
 			net[x]++
+		}
+		if fired {
+			// error reply from the server, success reported to the caller: the items now count as added and must be present
+			run.Observe("adds_refused_by_server_but_reported_successful", 1)
+			shape = " add-answered-with-error-reply=" + strings.SplitN(refused, " ", 2)[0]
+			note("(server replied)", nil, refused)
+			ok := exists(keys[:min(len(keys), maxItems)], true)
+			shape = ""
+			return ok
 		}
 		run.Observe("adds", 1)
 		// hash functions per item, from the EVALSHA the server received: KEYS(2) then ARGV = itemCount, indexes...
@@ -287,7 +321,7 @@ func (d *driver) runConfig(c cfg, nops int) string {
 		run.Observe("legit_removals", int64(len(keys)))
 		return !negatives()
 	}
-	exists := func(keys []string, multi bool) bool {
+	exists = func(keys []string, multi bool) bool {
 		var res []bool
 		var err error
 		op := "Exists"
@@ -423,8 +457,13 @@ func (d *driver) runConfig(c cfg, nops int) string {
 	if kv, _ := strconv.Atoi(k); kv > 100 {
 		nops = max(30, nops/4) // a thousand counters per item: keep the cost per configuration bounded
 	}
+	refusals := []string{"OOM command not allowed when used memory > 'maxmemory'.", "READONLY You can't write against a read only replica.",
+		"WRONGTYPE Operation against a key holding the wrong kind of value", "ERR Error running script (call to f_0): @user_script:9: -MISCONF Redis is configured to save RDB snapshots"}
 	for i := 0; i < nops; i++ {
 		ok := true
+		if d.rng.Intn(12) == 0 {
+			refuse = refusals[d.rng.Intn(len(refusals))] // consumed by the next add
+		}
 		lv := live()
 		switch p := d.rng.Intn(100); {
 		case p < 18 || len(lv) == 0:
@@ -740,7 +779,7 @@ func TestC36(t *testing.T) {
 	}
 	run := mon.Start(t, "C36", "exploration",
 		"every grid point (expectedNumberOfItems in {0,1,2,3,10,100,1e4,1e6,1e7} x falsePositiveRate in {5e-324,1e-300,1e-12,1e-6,0.01,0.5,0.7,0.7071,0.7072,0.75,0.9,0.99,0.999999,1-2^-53,1,1+2^-52,0,-0.5,NaN,+Inf}) that NewCountingBloomFilter accepts is first probed in a crash-isolated child (constructor, first Add, first Exists), then gets a random history of "+
-			"Add/AddMulti (re-adds, duplicates)/Remove/RemoveMulti of items whose net multiplicity stays >= 0/Exists/ExistsMulti/ItemMinCount/ItemMinCountMulti against a reference multiset, then removals of never-added or over-removed items judged on the server's counters (HGETALL before/after, item indexes read from the EVALSHA the server received); "+
+			"Add/AddMulti (re-adds, duplicates)/Remove/RemoveMulti of items whose net multiplicity stays >= 0/Exists/ExistsMulti/ItemMinCount/ItemMinCountMulti against a reference multiset (some adds answered by the server with an error reply - OOM, READONLY, WRONGTYPE, script error - instead of being executed: an Add that returns nil then still counts as added), then removals of never-added or over-removed items judged on the server's counters (HGETALL before/after, item indexes read from the EVALSHA the server received); "+
 			"a case = (n, rate, hash functions on the wire, call kind, members/others queried or removal shape), non-trivial when an item with positive net multiplicity was queried / a removal had to be refused")
 	defer run.Finish()
 	run.Assume("fakeredis HINCRBY/HGET/HMGET/HGETALL/INCRBY/DECRBY and minilua execute the shipped scripts as Redis 7 would (harness self tests)",
@@ -791,5 +830,5 @@ func TestC36(t *testing.T) {
 	}
 	run.Extra("rejected_configs", rejected)
 	run.Extra("zero_hash_function_configs", zero)
-	run.Require("present_answers_checked", "multi_positions_checked", "mincount_answers_checked", "mincount_checked_multiplicity_gt1", "legit_removals", "bad_removals_judged", "hincrby_in_scripts", "hget_in_scripts", "true_negatives", "final_counter_fields_inspected")
+	run.Require("present_answers_checked", "multi_positions_checked", "mincount_answers_checked", "mincount_checked_multiplicity_gt1", "legit_removals", "adds_refused_by_server_and_reported", "bad_removals_judged", "hincrby_in_scripts", "hget_in_scripts", "true_negatives", "final_counter_fields_inspected")
 }
